@@ -790,6 +790,9 @@ class SymDict(dict):
 
     def _find(self, k):
         """-> ('n', native key) | ('s', index) | None"""
+        if isinstance(k, (SymInt, SymBool)) and not self._sym:
+            # integer key: one multi-way decision over its feasible values, then an ordinary lookup
+            k = core.cur().concretize(k)
         if is_symkey(k):
             for kk in dict.keys(self):
                 if _maybe_eq(kk, k) and bool(truth(deep_eq(k, kk))):
@@ -934,6 +937,8 @@ class SymSet(set):
             self.add(x)
 
     def _has(self, x):
+        if isinstance(x, (SymInt, SymBool)) and not self._sym:
+            x = core.cur().concretize(x)
         if is_symkey(x):
             for e in set.__iter__(self):
                 if _maybe_eq(e, x) and bool(truth(deep_eq(x, e))):
